@@ -16,7 +16,6 @@ Record ucd_spec : Prop := {
   us_ok : ucd_ok U;
   us_M : (M <= 2147483647)%Z;
   us_d : forall c, u_d U c = true <-> dv c <> None;                     (* \d = the characters with a decimal value *)
-  us_w : forall c, dv c <> None -> u_w U c = true;                       (* a decimal digit is a word character *)
   us_known : forall c, In c (44 :: 46 :: 95 :: 122 :: known_types) -> dv c = None;
   us_und : u_w U 95 = true /\ u_w U 122 = true;
   us_zero : dv 48 = Some 0 }.
@@ -181,6 +180,13 @@ Proof.
   intros Hw H44 H46. unfold m_tail2, opt_char. replace (44 =? c) with false by (symmetry; apply N.eqb_neq; congruence).
   destruct (m_tail3 (c :: r)) as [[p t]|] eqn:E; [|discriminate]. apply m_tail3_odd in E; [|exact Hw|exact H46].
   intros H; inversion H; subst; reflexivity.
+Qed.
+
+Lemma m_tail2_nonword c r : u_w U c = false -> c <> 37 -> c <> 44 -> c <> 46 -> m_tail2 (c :: r) = None.
+Proof.
+  intros Hw H37 H44 H46. unfold m_tail2, opt_char. replace (44 =? c) with false by (symmetry; apply N.eqb_neq; congruence).
+  unfold m_tail3, m_prec. replace (c =? 46) with false by (symmetry; apply N.eqb_neq; exact H46).
+  unfold m_tail4, opt_char, typ. rewrite Hw. replace (c =? 37) with false by (symmetry; apply N.eqb_neq; exact H37). reflexivity.
 Qed.
 
 Lemma m_tail_odd c r wd cm pr ty : u_w U c = true -> is_ascii_digit c = false -> c <> 44 -> c <> 46 ->
@@ -353,9 +359,10 @@ Proof.
   destruct (FmtPyBrace.span is_ascii_digit s4) as [W r5]. cbn [fst snd] in *.
   assert (Hs5 : forall s5, s5 = r5 -> m_tail2 s5 = Some (cm, pr, ty) -> hd_nodec s5).
   { intros s5 -> E. unfold hd_nodec. destruct r5 as [|c r]; [exact I|]. destruct (dv c) eqn:Ec; [|reflexivity]. exfalso.
-    assert (Hw : u_w U c = true) by (apply (us_w Hs); congruence).
     assert (H44 : c <> 44) by (intros ->; rewrite (us_known Hs 44) in Ec; [discriminate|left; reflexivity]).
     assert (H46 : c <> 46) by (intros ->; rewrite (us_known Hs 46) in Ec; [discriminate|right; left; reflexivity]).
+    assert (H37 : c <> 37) by (intros ->; rewrite (us_known Hs 37) in Ec; [discriminate|cbn; tauto]).
+    destruct (u_w U c) eqn:Hw; [|rewrite (m_tail2_nonword c r Hw H37 H44 H46) in E; discriminate].
     apply m_tail2_odd in E; auto. subst ty. rewrite (ty_known_dv c Hty) in Ec. discriminate. }
   destruct W as [|w0 W].
   - cbn [app] in Ha. subst r5. destruct (m_tail2 s4) as [[[cm' pr'] ty']|] eqn:E; [|discriminate]. injection H as <- <- <- <-.
